@@ -386,8 +386,9 @@ def check_property_(pid, tier, seed):
             if seen_k[k]:
                 ordered.append(seen_k[k].pop(0))
     found = 0
+    nfi = 0
     for o in ordered:
-        if len(violations) >= 16 or (found >= 3 and len(violations) >= 6):
+        if found >= 3 or (searched >= 40 and nfi >= 4):
             break
         d = ctx.by_name[o['decl']]
         if o['label'] == 'verdict':
@@ -415,7 +416,7 @@ def check_property_(pid, tier, seed):
             violations.append((write_replay(pid, payload), ''))
             continue
         w = None
-        if d['kind'] == 'bitfield' and searched < 24 and (o['decl'], o['label']) not in seen_decl:
+        if d['kind'] == 'bitfield' and searched < 40 and (o['decl'], o['label']) not in seen_decl:
             searched += 1
             seen_decl.add((o['decl'], o['label']))
             w = directed_search(ctx, d, o['label'])
@@ -424,7 +425,8 @@ def check_property_(pid, tier, seed):
             payload['witness'] = w
             violations.append((write_replay(pid, payload), ''))
             reported.add((w['decl'], w.get('field'), w.get('op')))
-        else:
+        elif nfi < 4:
+            nfi += 1
             violations.append((write_replay(pid, payload), ' no-failing-input-found'))
     # declarations dropped from the runner because their API changed, when this property is about that API
     for name, msgs in list(api.items())[:4]:
